@@ -6,6 +6,7 @@ file as controls), (c) a simulated TCP pipe read through SimSocket, with seeded 
 delays and recv fragmentation. Consumer: the real ccsds_generator / packet_generator(headers
 only). No EOF/close faults here (that is C10).
 """
+import gzip
 import io
 import os
 import sys
@@ -31,7 +32,7 @@ RULE = ("each case draws (source kind, consumer, prefix k, read size, trim-thres
         "choice lists")
 COMPONENTS = {
     "real": ["space_packet_parser.packets.ccsds_generator", "XtcePacketDefinition.packet_generator(ccsds_headers_only=True)",
-             "io.BufferedReader", "io.BytesIO", "real temp file (control)"],
+             "io.BufferedReader", "io.BytesIO", "real temp file (control)", "gzip.GzipFile (control)"],
     "stub": ["SimRaw raw disk device (short reads)", "SimSocket.recv over a simulated ordered byte pipe",
              "producer task (write sizes, delays)", "SimClock replacing packets.time",
              "clone of ccsds_generator with the 20 MB trim constant replaced (knob; genuine constant kept in a share of runs)"],
@@ -46,7 +47,7 @@ EXPECTED_PROBES = ("b_in_prefix", "b_in_header", "b_at_header_end", "b_in_body",
                    "max_packet", "trim_taken", "genuine_trim_taken")
 
 BIG_DEN = 40_000
-SOURCES = [(4, "bytes"), (6, "file"), (2, "bytesio"), (7, "socket"), (1, "realfile")]
+SOURCES = [(4, "bytes"), (6, "file"), (2, "bytesio"), (7, "socket"), (1, "realfile"), (1, "gzipfile")]
 SRC_NAMES = [s for _, s in SOURCES]
 
 _packets = factory.import_library()          # import only; nothing of the library is called before fork
@@ -207,6 +208,14 @@ def run(ch, render=False):
         source = stream
     elif src == "bytesio":
         source = io.BytesIO(stream)
+    elif src == "gzipfile":
+        # another real io.BufferedIOBase: a gzip.GzipFile over an in-memory compressed copy (control, like realfile)
+        zbuf = io.BytesIO()
+        with gzip.GzipFile(fileobj=zbuf, mode="wb", mtime=0) as zf:
+            zf.write(stream)
+        zbuf.seek(0)
+        fobj = gzip.GzipFile(fileobj=zbuf, mode="rb")
+        source = fobj
     elif src == "realfile":
         fd, tmp_path = tempfile.mkstemp(prefix="verif_c02_")
         os.write(fd, stream)
@@ -345,7 +354,7 @@ def run(ch, render=False):
             if e[2] == "sock" and e[3] == "recv":
                 c += e[4]
                 boundaries.append(c)
-    elif src in ("file", "bytesio", "realfile") and isinstance(rs, int) and rs > 0 and not big:
+    elif src in ("file", "bytesio", "realfile", "gzipfile") and isinstance(rs, int) and rs > 0 and not big:
         boundaries = list(range(rs, total + 1, rs))
     elif big and isinstance(rs, int):
         boundaries = list(range(rs, total + 1, rs))
